@@ -506,7 +506,7 @@ def report(scenario, seed, tier, results, wall, skipped, harness_errors, args):
     samples = []
     extra = Counter()
     digests = []
-    replay_dir = os.path.join(VERIF, "replays", pid)
+    replay_dir = os.path.join(os.environ.get("HOSTSIM_REPLAY_DIR") or os.path.join(VERIF, "replays"), pid)
     cov = set()
     for o in results:
         cov.update(map(tuple, o.pop("cov_union", [])))
